@@ -156,7 +156,7 @@ PollLoop(R) ==
               ELSE LET s == R1.slots[key + 1] IN
                    IF R1.got[s] < sent[s]
                      THEN [R |-> [R1 EXCEPT !.got[s] = @ + 1, !.queue = @ \cup {g.idx}],  \* back of the queue
-                           res |-> [r |-> "item", s |-> s, n |-> R1.got[s] + 1]]
+                           res |-> [r |-> "item", src |-> s, n |-> R1.got[s] + 1]]
                    ELSE IF closed[s]
                      THEN PollLoop([R1 EXCEPT !.slots[key + 1] = 0, !.free = <<key>> \o @, !.st[s] = "gone"])  \* Slab::remove
                    ELSE PollLoop([R1 EXCEPT !.reg[s] = TRUE])                             \* Pending: the source keeps the waker
@@ -170,7 +170,7 @@ Poll ==
        /\ queue' = p.R.queue /\ cur' = p.R.cur /\ st' = p.R.st /\ got' = p.R.got /\ reg' = p.R.reg
        /\ idle' = (p.res.r = "pending")
        /\ bypass' = IF p.res.r = "item"
-                      THEN [s \in Streams |-> IF s = p.res.s THEN 0 ELSE IF Ready(s) THEN bypass[s] + 1 ELSE 0]
+                      THEN [s \in Streams |-> IF s = p.res.src THEN 0 ELSE IF Ready(s) THEN bypass[s] + 1 ELSE 0]
                       ELSE bypass
        /\ lastAct' = [k |-> "poll", wake |-> FALSE] @@ p.res
 
@@ -188,7 +188,7 @@ TypeOK == /\ cur \in 0..nb-1 /\ nb \in 1..MaxB
 
 \* each source's items leave in its own order, none fabricated or duplicated
 PerSourceOrder == (lastAct.k = "poll" /\ lastAct.r = "item") =>
-                     /\ st[lastAct.s] = "att" /\ lastAct.n = got[lastAct.s] /\ lastAct.n <= sent[lastAct.s]
+                     /\ st[lastAct.src] = "att" /\ lastAct.n = got[lastAct.src] /\ lastAct.n <= sent[lastAct.src]
 
 \* nothing is lost: the reader is never parked (Pending returned, task not woken) while an attached
 \* source has an item to deliver or has ended unnoticed
